@@ -127,12 +127,12 @@ class StlAstParserVisitor(LtlAstParserVisitor, StlParserVisitor):
 
 
     def visitIntervalTimeLiteral(self, ctx):
-        text = ctx.literal().getText()
+        text = ctx.literal().getText().replace('_', '')
         try:
             time_bound = Fraction(Decimal(text))
         except ArithmeticError:
-            # hexadecimal, binary or underscored integer literal
-            time_bound = Fraction(int(text.replace('_', ''), 0))
+            # hexadecimal or binary integer literal
+            time_bound = Fraction(int(text, 0))
         if ctx.unit() is None:
             unit = ''
         else:
